@@ -466,6 +466,174 @@ Section MemoTrue.
   Qed.
 End MemoTrue.
 
+(* ---- Part D': the same theorem under the hypothesis restricted to the neighbourhoods the engine builds.
+   Real rules (Game of Life, sandpile) read n[r][r] from the data and are mask-respecting only on well-formed
+   neighbourhoods; the hypothesis below asks nothing about ragged blocks or blocks with a foreign mask. *)
+(* a neighbourhood that _get_neighbourhood returns for some cell of some well-shaped R x C grid: its values are the
+   torus block of the cell (Proofs/Evolve2DProofs.v: get_neighbourhood_spec), its mask is the mask of (ty, r) *)
+Definition built (R C r : nat) (ty : nbhd_type) (n : nbhd2) : Prop :=
+  exists g row col, wf_grid2 R C g /\ row < R /\ col < C /\ n = get_neighbourhood g R C r row col ty.
+
+Lemma built_good R C r ty n : built R C r ty n -> nb_good r ty n.
+Proof. intros (g & row & col & _ & _ & _ & ->). apply get_neighbourhood_good. Qed.
+
+(* step_plain2d_inv with the hypothesis on the rule restricted to the cells of the grid *)
+Section PlainStepIn.
+  Variable St : Type.
+  Variable rule : rule2 St.
+  Variable store : Z -> Z.
+  Variable f : nbhd2 -> Z.
+  Variable I : St -> Prop.
+  Variables (g : grid) (R C r : nat) (ty : nbhd_type) (t : nat).
+  Hypothesis Hrule : forall s row col, row < R -> col < C -> I s ->
+    I (fst (rule s (get_neighbourhood g R C r row col ty) (row, col) t)) /\
+    snd (rule s (get_neighbourhood g R C r row col ty) (row, col) t) = f (get_neighbourhood g R C r row col ty).
+
+  Lemma apply_cols_inv_in row : row < R -> forall cols s, Forall (fun c => c < C) cols -> I s ->
+    I (fst (apply_cols rule store s g R C r ty row cols t)) /\
+    snd (apply_cols rule store s g R C r ty row cols t) = map (spec_cell f store g R C r ty row) cols.
+  Proof.
+    intros Hrow. induction cols as [|col cols IH]; intros s Hc Hs; [split; [exact Hs|reflexivity]|].
+    inversion Hc as [|c' l' Hcol Hc']; subst c' l'.
+    cbn [apply_cols map]. destruct (Hrule s row col Hrow Hcol Hs) as [H1 H2].
+    destruct (rule s (get_neighbourhood g R C r row col ty) (row, col) t) as [s1 v]. cbn [fst snd] in H1, H2.
+    destruct (IH s1 Hc' H1) as [J1 J2].
+    destruct (apply_cols rule store s1 g R C r ty row cols t) as [s2 vs]. cbn [fst snd] in *.
+    split; [exact J1|]. unfold spec_cell at 1. rewrite H2, J2. reflexivity.
+  Qed.
+
+  Lemma seq_lt_all n : Forall (fun c => c < n) (seq 0 n).
+  Proof. apply Forall_forall. intros x Hx. apply in_seq in Hx. lia. Qed.
+
+  Lemma apply_rows_inv_in : forall rows s, Forall (fun x => x < R) rows -> I s ->
+    I (fst (apply_rows rule store s g R C r ty rows t)) /\
+    snd (apply_rows rule store s g R C r ty rows t)
+    = map (fun row => map (spec_cell f store g R C r ty row) (seq 0 C)) rows.
+  Proof.
+    induction rows as [|row rows IH]; intros s Hr Hs; [split; [exact Hs|reflexivity]|].
+    inversion Hr as [|c' l' Hrow Hr']; subst c' l'.
+    cbn [apply_rows map]. destruct (apply_cols_inv_in row Hrow (seq 0 C) s (seq_lt_all C) Hs) as [H1 H2].
+    destruct (apply_cols rule store s g R C r ty row (seq 0 C) t) as [s1 vs]. cbn [fst snd] in H1, H2.
+    destruct (IH s1 Hr' H1) as [J1 J2].
+    destruct (apply_rows rule store s1 g R C r ty rows t) as [s2 rest]. cbn [fst snd] in *.
+    split; [exact J1|]. rewrite H2, J2. reflexivity.
+  Qed.
+
+  Hypothesis HgR : grid_rows g = R.
+  Hypothesis HgC : grid_cols g = C.
+
+  Lemma step_plain2d_inv_in : forall s, I s ->
+    I (fst (step_plain2d rule store r ty s g t)) /\
+    snd (step_plain2d rule store r ty s g t) = tabulate R C (spec_cell f store g R C r ty).
+  Proof.
+    intros s Hs. unfold step_plain2d. rewrite HgR, HgC. exact (apply_rows_inv_in (seq 0 R) s (seq_lt_all R) Hs).
+  Qed.
+End PlainStepIn.
+
+Section MemoTrueBuilt.
+  Variable St : Type.
+  Variable rule : rule2 St.
+  Variable store : Z -> Z.
+  Variable f : nbhd2 -> Z.
+  Variables (r : nat) (ty : nbhd_type) (R C : nat).
+  Hypothesis Hf : answers rule f.
+  (* f reads only the unmasked entries OF THE NEIGHBOURHOODS THE ENGINE BUILDS for R x C grids *)
+  Hypothesis Hum : forall n n', built R C r ty n -> built R C r ty n' ->
+    nb_mask n = nb_mask n' -> unmasked n = unmasked n' -> f n = f n'.
+
+  Definition MInvB (m : memo_table) : Prop :=
+    forall k v, In (k, v) m -> forall n, built R C r ty n -> memo_key n = k -> v = f n.
+
+  Lemma get_memoized2_ok_built s m n c t : MInvB m -> built R C r ty n ->
+    MInvB (snd (fst (get_memoized2 rule (s, m) n c t))) /\ snd (get_memoized2 rule (s, m) n c t) = f n.
+  Proof.
+    intros HI Hn. unfold get_memoized2.
+    destruct (memo_lookup (memo_key n) m) as [v|] eqn:E.
+    - cbn [fst snd]. split; [exact HI|]. apply memo_lookup_in in E. exact (HI _ _ E n Hn eq_refl).
+    - pose proof (Hf s n c t) as Hv. destruct (rule s n c t) as [s1 v]. cbn [fst snd] in *. subst v.
+      split; [|reflexivity].
+      intros k v [Hin|Hin] n' Hn' Hk; [|exact (HI _ _ Hin n' Hn' Hk)].
+      injection Hin as <- <-.
+      destruct (memo_key_unmasked r ty n' n (built_good _ _ _ _ _ Hn') (built_good _ _ _ _ _ Hn) Hk) as [Hm Hu].
+      symmetry. apply Hum; assumption.
+  Qed.
+
+  Lemma memo_step_spec_built g t s m : MInvB m -> 1 <= R -> wf_grid2 R C g ->
+    MInvB (snd (fst (step_memo2d rule store r ty (s, m) g t))) /\
+    snd (step_memo2d rule store r ty (s, m) g t) = tabulate R C (spec_cell f store g R C r ty).
+  Proof.
+    intros HI HR Hwf. unfold step_memo2d.
+    apply (step_plain2d_inv_in (St * memo_table) (get_memoized2 rule) store f (fun x => MInvB (snd x)) g R C r ty t).
+    - intros [s0 m0] row col Hrow Hcol H0. cbn [snd] in H0.
+      apply get_memoized2_ok_built; [exact H0|]. exists g, row, col. split; [exact Hwf|]. split; [exact Hrow|]. split; [exact Hcol|reflexivity].
+    - apply (wf_grid2_rows R C g Hwf).
+    - apply (wf_grid2_cols R C g HR Hwf).
+    - exact HI.
+  Qed.
+
+  Lemma memo_sim_step_built : 1 <= R -> forall (x1 : St * memo_table) (x2 : St) c t,
+    MInvB (snd x1) -> wf_grid2 R C c ->
+    MInvB (snd (fst (step_memo2d rule store r ty x1 c t))) /\
+    snd (step_memo2d rule store r ty x1 c t) = snd (step_plain2d rule store r ty x2 c t) /\
+    wf_grid2 R C (snd (step_plain2d rule store r ty x2 c t)).
+  Proof.
+    intros HR [s m] x2 c t HI Hwf. cbn [snd] in HI.
+    destruct (memo_step_spec_built c t s m HI HR Hwf) as [H1 H2].
+    rewrite (plain_step_spec rule store f R C r ty c t x2 Hf HR Hwf).
+    split; [exact H1|]. split; [exact H2|apply tabulate_wf].
+  Qed.
+
+  Lemma MInvB_nil : MInvB [].
+  Proof. intros k v []. Qed.
+
+  Theorem memo2d_true_fixed_built hist T s0 : 1 <= R -> 1 <= C -> r <= Nat.min R C ->
+    wf_grid2 R C (last hist []) ->
+    arr2_of (evolve2d_mode_fixed rule store Memo r ty s0 hist T)
+    = arr2_of (evolve2d_mode_fixed rule store Plain r ty s0 hist T).
+  Proof.
+    intros HR HC Hr Hwf. cbn [evolve2d_mode_fixed]. unfold evolve2d_plain.
+    rewrite (arr2_of_bind _ (@fst St memo_table)), arr2_of_res_snd.
+    exact (evolve_fixed_sim_arr (St * memo_table) St grid [] (step_memo2d rule store r ty)
+             (step_plain2d rule store r ty) (fun x1 _ => MInvB (snd x1)) (wf_grid2 R C)
+             (memo_sim_step_built HR) (s0, []) s0 hist T MInvB_nil Hwf).
+  Qed.
+
+  Theorem memo2d_true_dynamic_built {P} (pred : P -> list grid -> nat -> P * bool) hist fuel p0 s0 :
+    1 <= R -> 1 <= C -> r <= Nat.min R C -> wf_grid2 R C (last hist []) ->
+    dyn_arr2_of (evolve2d_mode_dynamic rule store pred Memo r ty fuel p0 s0 hist)
+    = dyn_arr2_of (evolve2d_mode_dynamic rule store pred Plain r ty fuel p0 s0 hist).
+  Proof.
+    intros HR HC Hr Hwf. cbn [evolve2d_mode_dynamic]. unfold evolve2d_plain_dynamic.
+    rewrite (dyn_arr2_of_map _ (@fst St memo_table)), dyn_arr2_of_proj.
+    exact (evolve_dynamic_sim_arr (St * memo_table) St P grid [] (step_memo2d rule store r ty)
+             (step_plain2d rule store r ty) pred (fun x1 _ => MInvB (snd x1)) (wf_grid2 R C)
+             (memo_sim_step_built HR) fuel p0 (s0, []) s0 hist MInvB_nil Hwf).
+  Qed.
+End MemoTrueBuilt.
+
+(* the earlier statements are corollaries: a hypothesis on all well-formed neighbourhoods (nb_good), or on all
+   neighbourhood objects whatsoever (reads_unmasked_only), implies the hypothesis on the built ones *)
+Corollary memo2d_true_fixed_nbgood {St} (rule : rule2 St) store f r ty R C hist T s0 :
+  answers rule f ->
+  (forall n n', nb_good r ty n -> nb_good r ty n' -> nb_mask n = nb_mask n' -> unmasked n = unmasked n' -> f n = f n') ->
+  1 <= R -> 1 <= C -> r <= Nat.min R C -> wf_grid2 R C (last hist []) ->
+  arr2_of (evolve2d_mode_fixed rule store Memo r ty s0 hist T)
+  = arr2_of (evolve2d_mode_fixed rule store Plain r ty s0 hist T).
+Proof.
+  intros Hf Hum. apply (memo2d_true_fixed_built St rule store f r ty R C Hf).
+  intros n n' Hn Hn'. apply Hum; eapply built_good; eassumption.
+Qed.
+
+Corollary memo2d_true_fixed_from_built {St} (rule : rule2 St) store f r ty R C hist T s0 :
+  answers rule f -> reads_unmasked_only f ->
+  1 <= R -> 1 <= C -> r <= Nat.min R C -> wf_grid2 R C (last hist []) ->
+  arr2_of (evolve2d_mode_fixed rule store Memo r ty s0 hist T)
+  = arr2_of (evolve2d_mode_fixed rule store Plain r ty s0 hist T).
+Proof.
+  intros Hf Hum. apply (memo2d_true_fixed_built St rule store f r ty R C Hf).
+  intros n n' _ _. apply Hum.
+Qed.
+
 (* ================================================================== Part E: _MemoizationCache *)
 (* the cache as a set of (flat contents, shape, value) triples *)
 Definition entries (c : cache2d) : list (list Z * shape * grid) :=
@@ -1500,3 +1668,231 @@ Section PlainCount.
     cbn [fst snd length log2_of] in *. rewrite H'. replace (S k - 1) with k by lia. reflexivity.
   Qed.
 End PlainCount.
+
+(* ---- memoize=True, trajectory level: the keys of the logged calls are exactly the keys of the neighbourhoods
+   that occur in the trajectory (each exactly once) *)
+Section TrueTrajectory.
+  Variable S0 : Type.
+  Variable rule : rule2 S0.
+  Variable store : Z -> Z.
+  Variables (r : nat) (ty : nbhd_type).
+  Local Notation XT := ((S0 * list call2) * memo_table)%type.
+  Local Notation TI := (TInv S0).
+  Local Notation keys := (tkeys S0).
+
+  (* a cell visit adds no key but the visited one *)
+  Lemma get_memoized2_keys (x : XT) n c t k :
+    In k (keys (fst (get_memoized2 (logged2 rule) x n c t))) -> In k (keys x) \/ k = memo_key n.
+  Proof.
+    destruct x as [[s lg] m]. unfold get_memoized2.
+    destruct (memo_lookup (memo_key n) m) as [v|]; cbn [fst]; [left; assumption|].
+    unfold logged2. destruct (rule s n c t) as [s1 v]. unfold tkeys. cbn [fst snd map].
+    intros [H|H]; [right; symmetry; exact H|left; exact H].
+  Qed.
+
+  Section OneGrid.
+    Variables (g : grid) (R C : nat) (t : nat).
+    Local Notation nb row col := (get_neighbourhood g R C r row col ty).
+
+    Lemma memo_cols_keys row : forall cols (x : XT) k,
+      In k (keys (fst (apply_cols (get_memoized2 (logged2 rule)) store x g R C r ty row cols t))) ->
+      In k (keys x) \/ exists col, In col cols /\ k = memo_key (nb row col).
+    Proof.
+      induction cols as [|col cols IH]; intros x k; cbn [apply_cols]; [cbn [fst]; left; assumption|].
+      pose proof (get_memoized2_keys x (nb row col) (row, col) t) as H1.
+      destruct (get_memoized2 (logged2 rule) x (nb row col) (row, col) t) as [x1 v]. cbn [fst] in H1.
+      specialize (IH x1 k).
+      destruct (apply_cols (get_memoized2 (logged2 rule)) store x1 g R C r ty row cols t) as [x2 vs]. cbn [fst] in *.
+      intros Hk. destruct (IH Hk) as [H|[col' [Hin ->]]].
+      - destruct (H1 k H) as [H'| ->]; [left; exact H'|right; exists col; split; [left; reflexivity|reflexivity]].
+      - right. exists col'. split; [right; exact Hin|reflexivity].
+    Qed.
+
+    Lemma memo_rows_keys : forall rows (x : XT) k,
+      In k (keys (fst (apply_rows (get_memoized2 (logged2 rule)) store x g R C r ty rows t))) ->
+      In k (keys x) \/ exists row col, In row rows /\ col < C /\ k = memo_key (nb row col).
+    Proof.
+      induction rows as [|row rows IH]; intros x k; cbn [apply_rows]; [cbn [fst]; left; assumption|].
+      pose proof (memo_cols_keys row (seq 0 C) x) as H1.
+      destruct (apply_cols (get_memoized2 (logged2 rule)) store x g R C r ty row (seq 0 C) t) as [x1 vs]. cbn [fst] in H1.
+      specialize (IH x1 k).
+      destruct (apply_rows (get_memoized2 (logged2 rule)) store x1 g R C r ty rows t) as [x2 rest]. cbn [fst] in *.
+      intros Hk. destruct (IH Hk) as [H|[row' [col' [Hin [Hc ->]]]]].
+      - destruct (H1 k H) as [H'|[col [Hin ->]]]; [left; exact H'|].
+        right. exists row, col. apply in_seq in Hin. split; [left; reflexivity|]. split; [lia|reflexivity].
+      - right. exists row', col'. split; [right; exact Hin|]. split; [exact Hc|reflexivity].
+    Qed.
+  End OneGrid.
+
+  Lemma memo_step_keys R C : 1 <= R -> forall (x : XT) g t k, wf_grid2 R C g ->
+    In k (keys (fst (step_memo2d (logged2 rule) store r ty x g t))) ->
+    In k (keys x) \/ exists row col, row < R /\ col < C /\ k = memo_key (get_neighbourhood g R C r row col ty).
+  Proof.
+    intros HR x g t k Hwf. unfold step_memo2d, step_plain2d.
+    rewrite (wf_grid2_rows R C g Hwf), (wf_grid2_cols R C g HR Hwf). intros Hk.
+    destruct (memo_rows_keys g R C t (seq 0 R) x k Hk) as [H|[row [col [Hin [Hc ->]]]]]; [left; exact H|].
+    right. exists row, col. apply in_seq in Hin. split; [lia|]. split; [exact Hc|reflexivity].
+  Qed.
+
+  (* n steps from (x, cur): the table gains exactly the keys of the neighbourhoods of the grids cur, rows[0..n-2] *)
+  Lemma memo_iter_traj R C : 1 <= R -> forall n (x : XT) cur t x' rows, wf_grid2 R C cur -> TI x ->
+    iter_steps (step_memo2d (logged2 rule) store r ty) n x cur t = (x', rows) ->
+    TI x' /\
+    forall k, In k (keys x') <->
+      In k (keys x) \/ exists j row col, j < n /\ row < R /\ col < C /\
+                       k = memo_key (get_neighbourhood (nth j (cur :: rows) []) R C r row col ty).
+  Proof.
+    intros HR. induction n as [|n IH]; intros x cur t x' rows Hwf HI H.
+    - cbn [iter_steps] in H. injection H as <- <-. split; [exact HI|]. intros k. split; [left; assumption|].
+      intros [Hk|[j [row [col [Hj _]]]]]; [exact Hk|lia].
+    - cbn [iter_steps] in H.
+      pose proof (memo_step_once S0 rule store r ty R C HR x cur t Hwf HI) as Hs. cbv zeta in Hs.
+      pose proof (memo_step_keys R C HR x cur t) as Hk1.
+      pose proof (memo_step_wf S0 rule store r ty R C HR x cur t Hwf) as Hw.
+      destruct (step_memo2d (logged2 rule) store r ty x cur t) as [x1 nxt]. cbn [fst snd] in Hs, Hk1, Hw.
+      destruct Hs as (I1 & _ & M1 & K1).
+      destruct (iter_steps (step_memo2d (logged2 rule) store r ty) n x1 nxt (S t)) as [x2 rest] eqn:E2.
+      injection H as <- <-. destruct (IH x1 nxt (S t) x2 rest Hw I1 E2) as [I2 Hiff].
+      split; [exact I2|]. intros k. rewrite Hiff. split.
+      + intros [Hk|[j [row [col [Hj [Hr [Hc ->]]]]]]].
+        * destruct (Hk1 k Hwf Hk) as [H|[row [col [Hr [Hc ->]]]]]; [left; exact H|].
+          right. exists 0, row, col. split; [lia|]. split; [exact Hr|]. split; [exact Hc|reflexivity].
+        * right. exists (S j), row, col. split; [lia|]. split; [exact Hr|]. split; [exact Hc|reflexivity].
+      + intros [Hk|[j [row [col [Hj [Hr [Hc ->]]]]]]].
+        * left. apply M1. exact Hk.
+        * destruct j as [|j].
+          -- left. cbn [nth]. apply K1; assumption.
+          -- right. exists j, row, col. split; [lia|]. split; [exact Hr|]. split; [exact Hc|reflexivity].
+  Qed.
+
+  Lemma memo_fixed_traj R C hist T s0 : 1 <= R -> 1 <= T -> wf_grid2 R C (last hist []) ->
+    exists (x' : XT) rows,
+      evolve_fixed [] (step_memo2d (logged2 rule) store r ty) (s0, [], []) hist T = Ok (x', hist ++ rows) /\
+      TI x' /\
+      forall k, In k (keys x') <->
+        exists j row col, j < T - 1 /\ row < R /\ col < C /\
+          k = memo_key (get_neighbourhood (nth j (last hist [] :: rows) []) R C r row col ty).
+  Proof.
+    intros HR HT Hwf. destruct T as [|n]; [lia|]. cbn [evolve_fixed].
+    destruct (iter_steps _ _ _ _ _) as [x' rows] eqn:E. exists x', rows. split; [reflexivity|].
+    destruct (memo_iter_traj R C HR n (s0, [], []) (last hist []) 1 x' rows Hwf (TInv_nil S0 s0) E) as [I' Hiff].
+    split; [exact I'|]. intros k. rewrite Hiff. replace (S n - 1) with n by lia. split.
+    - intros [[]|H]. exact H.
+    - intros H. right. exact H.
+  Qed.
+
+  (* exactly once per distinct content of the trajectory *)
+  Theorem memo2d_true_once_trajectory (f : nbhd2 -> Z) R C hist T s0 :
+    answers rule f ->
+    (forall n n', built R C r ty n -> built R C r ty n' ->
+                  nb_mask n = nb_mask n' -> unmasked n = unmasked n' -> f n = f n') ->
+    1 <= R -> 1 <= C -> r <= Nat.min R C -> wf_grid2 R C (last hist []) -> 1 <= T ->
+    exists rows,
+      arr2_of (evolve2d_mode_fixed (logged2 rule) store Plain r ty (s0, []) hist T) = Ok (hist ++ rows) /\
+      arr2_of (evolve2d_mode_fixed (logged2 rule) store Memo r ty (s0, []) hist T) = Ok (hist ++ rows) /\
+      NoDup (map call2_key (log2_of (evolve2d_mode_fixed (logged2 rule) store Memo r ty (s0, []) hist T))) /\
+      forall k, In k (map call2_key (log2_of (evolve2d_mode_fixed (logged2 rule) store Memo r ty (s0, []) hist T))) <->
+        exists t row col, 1 <= t < T /\ row < R /\ col < C /\
+          k = memo_key (get_neighbourhood (nth (t - 1) (last hist [] :: rows) []) R C r row col ty).
+  Proof.
+    intros Hf Hum HR HC Hr Hwf HT.
+    pose proof (memo2d_true_fixed_built (S0 * list call2) (logged2 rule) store f r ty R C (answers_logged rule f Hf) Hum
+                  hist T (s0, []) HR HC Hr Hwf) as Htr.
+    destruct (memo_fixed_traj R C hist T s0 HR HT Hwf) as (x' & rows & HE & [HK HN] & Hiff).
+    assert (HM : evolve2d_mode_fixed (logged2 rule) store Memo r ty (s0, []) hist T = Ok (fst x', hist ++ rows)).
+    { cbn [evolve2d_mode_fixed]. rewrite HE. reflexivity. }
+    exists rows. rewrite <- Htr, HM. cbn [arr2_of]. destruct x' as [[s lg] m]. cbn [fst log2_of].
+    unfold tlog, tkeys in *. cbn [fst snd] in *.
+    split; [reflexivity|]. split; [reflexivity|]. split; [rewrite HK; apply NoDup_rev; exact HN|].
+    intros k. rewrite HK, <- in_rev, Hiff. split.
+    - intros [j [row [col [Hj H]]]]. exists (S j), row, col. split; [lia|]. cbn [Nat.sub]. rewrite Nat.sub_0_r. exact H.
+    - intros [t [row [col [Ht H]]]]. exists (t - 1), row, col. split; [lia|exact H].
+  Qed.
+End TrueTrajectory.
+
+Lemma last_as_nth {A} (l : list A) d : l <> [] -> last l d = nth (length l - 1) l d.
+Proof.
+  induction l as [|a l IH]; intros H; [congruence|]. destruct l as [|b l]; [reflexivity|].
+  change (last (a :: b :: l) d) with (last (b :: l) d). rewrite IH by discriminate.
+  cbn [length]. replace (S (S (length l)) - 1) with (S (S (length l) - 1)) by lia. reflexivity.
+Qed.
+
+Section TrueTrajectoryDyn.
+  Variable S0 : Type.
+  Variable rule : rule2 S0.
+  Variable store : Z -> Z.
+  Variables (r : nat) (ty : nbhd_type) (R C : nat).
+  Variable P : Type.
+  Variable pred : P -> list grid -> nat -> P * bool.
+  Local Notation XT := ((S0 * list call2) * memo_table)%type.
+  Hypothesis HR : 1 <= R.
+
+  (* the table holds exactly the keys of the neighbourhoods of the grids already stepped from: all states but the last *)
+  Definition QT (x : XT) (states : list grid) : Prop :=
+    TInv S0 x /\
+    forall k, In k (tkeys S0 x) <->
+      exists j row col, j < length states - 1 /\ row < R /\ col < C /\
+        k = memo_key (get_neighbourhood (nth j states []) R C r row col ty).
+
+  Lemma memo_dyn_traj : forall fuel p (x : XT) states t plog p' y out plog',
+    states <> [] -> wf_grid2 R C (last states []) -> QT x states ->
+    dynamic_loop [] (step_memo2d (logged2 rule) store r ty) pred fuel p x states t plog = Some (p', y, out, plog') ->
+    QT y out.
+  Proof.
+    induction fuel as [|fu IH]; intros p x states t plog p' y out plog' Hne Hwf [HI Hiff] H; [discriminate|].
+    cbn [dynamic_loop] in H. destruct (pred p states t) as [p1 go]. destruct go.
+    - pose proof (memo_step_once S0 rule store r ty R C HR x (last states []) t Hwf HI) as Hs. cbv zeta in Hs.
+      pose proof (memo_step_keys S0 rule store r ty R C HR x (last states []) t) as Hk1.
+      pose proof (memo_step_wf S0 rule store r ty R C HR x (last states []) t Hwf) as Hw.
+      destruct (step_memo2d (logged2 rule) store r ty x (last states []) t) as [x1 nxt]. cbn [fst snd] in Hs, Hk1, Hw.
+      destruct Hs as (I1 & _ & M1 & K1).
+      apply (IH p1 x1 (states ++ [nxt]) (S t) (plog ++ [(states, t)]) p' y out plog'); [| |split; [exact I1|]|exact H].
+      + intros E. apply app_eq_nil in E as [_ E]. discriminate.
+      + rewrite last_last. exact Hw.
+      + unfold grid in *. assert (Hlen : length states >= 1) by (destruct states; [congruence|cbn; lia]).
+        rewrite app_length. cbn [length]. replace (length states + 1 - 1) with (length states) by lia.
+        intros k. split.
+        * intros Hk. destruct (Hk1 k Hwf Hk) as [H0|[row [col [Hr [Hc ->]]]]].
+          -- apply Hiff in H0 as [j [row [col [Hj [Hr [Hc ->]]]]]]. exists j, row, col.
+             split; [lia|]. split; [exact Hr|]. split; [exact Hc|]. rewrite app_nth1 by lia. reflexivity.
+          -- exists (length states - 1), row, col. split; [lia|]. split; [exact Hr|]. split; [exact Hc|].
+             rewrite app_nth1 by lia. rewrite <- last_as_nth by exact Hne. reflexivity.
+        * intros [j [row [col [Hj [Hr [Hc ->]]]]]]. rewrite app_nth1 by lia.
+          destruct (Nat.eq_dec j (length states - 1)) as [->|Hneq].
+          -- rewrite <- last_as_nth by exact Hne. apply K1; assumption.
+          -- apply M1. apply Hiff. exists j, row, col. split; [lia|]. split; [exact Hr|]. split; [exact Hc|reflexivity].
+    - injection H as _ <- <- _. split; assumption.
+  Qed.
+
+  Theorem memo2d_true_once_trajectory_dynamic (f : nbhd2 -> Z) hist fuel p0 s0 p' s lg out plog :
+    answers rule f ->
+    (forall n n', built R C r ty n -> built R C r ty n' ->
+                  nb_mask n = nb_mask n' -> unmasked n = unmasked n' -> f n = f n') ->
+    1 <= C -> r <= Nat.min R C -> wf_grid2 R C (last hist []) ->
+    evolve2d_mode_dynamic (logged2 rule) store pred Memo r ty fuel p0 (s0, []) hist = Some (p', (s, lg), out, plog) ->
+    exists states,
+      out = removelast hist ++ states /\
+      dyn_arr2_of (evolve2d_mode_dynamic (logged2 rule) store pred Plain r ty fuel p0 (s0, []) hist) = Some (out, plog) /\
+      NoDup (map call2_key lg) /\
+      forall k, In k (map call2_key lg) <->
+        exists j row col, j < length states - 1 /\ row < R /\ col < C /\
+          k = memo_key (get_neighbourhood (nth j states []) R C r row col ty).
+  Proof.
+    intros Hf Hum HC Hr Hwf H.
+    pose proof (memo2d_true_dynamic_built (S0 * list call2) (logged2 rule) store f r ty R C (answers_logged rule f Hf) Hum
+                  pred hist fuel p0 (s0, []) HR HC Hr Hwf) as Htr.
+    rewrite H in Htr. cbn [dyn_arr2_of] in Htr.
+    cbn [evolve2d_mode_dynamic] in H. unfold evolve_dynamic in H.
+    destruct (dynamic_loop [] (step_memo2d (logged2 rule) store r ty) pred fuel p0 (s0, [], []) [last hist []] 1 [])
+      as [[[[p1 y] states] l1]|] eqn:E; [|discriminate].
+    assert (HQ0 : QT (s0, [], []) [last hist []]).
+    { split; [apply TInv_nil|]. intros k. split; [intros []|]. intros [j [_ [_ [Hj _]]]]. cbn [length] in Hj. lia. }
+    pose proof (memo_dyn_traj fuel p0 (s0, [], []) [last hist []] 1 [] p1 y states l1
+                  (fun E0 => nil_cons (eq_sym E0)) Hwf HQ0 E) as [[HK HN] Hiff].
+    destruct y as [[s' lg'] m]. cbn [fst] in H. injection H as _ <- <- <- _.
+    exists states. split; [reflexivity|]. split; [symmetry; exact Htr|].
+    unfold tlog, tkeys in *. cbn [fst snd] in *.
+    split; [rewrite HK; apply NoDup_rev; exact HN|].
+    intros k. rewrite HK, <- in_rev. apply Hiff.
+  Qed.
+End TrueTrajectoryDyn.
